@@ -78,7 +78,7 @@ pub assume_specification<T, E, U, F: FnOnce(E) -> U>[ Poll::<Result<T, E>>::map_
 
 //@extract_type file=actix-server/src/service.rs item="struct StreamService<S, I>"
 
-//@extract file=actix-server/src/service.rs item="impl<S, I> Service<(WorkerCounterGuard, MioStream)> for StreamService<S, I> / fn call" async_block=1 block_sig="async fn conn_task<Fut: Future>(f: Fut, guard: WorkerCounterGuard) -> ()" props=C02 name=service::conn_task trace_awaits
+//@extract file=actix-server/src/service.rs item="impl<S, I> Service<(WorkerCounterGuard, MioStream)> for StreamService<S, I> / fn call" async_block=1 block_sig="async fn conn_task<Fut: Future>(f: Fut, guard: WorkerCounterGuard) -> ()" props=C02,C03 name=service::conn_task trace_awaits
 //@spec
     requires vawait_tag(&f) == AwaitTag::ServiceFuture,
 //@insert before="drop(guard);"
